@@ -851,6 +851,84 @@ def enc(ctx, flavours):
     return out
 
 
+def mutator_reach(ctx, fl):
+    """functions of flavour fl from which an Adjacent list mutator is reachable (crate-local calls, closures, crate iterators
+    handed to std); returns (set, via) where via[q] is the next function on a path to the mutator"""
+    key = ('mutator_reach', fl)
+    if key in ctx.cache:
+        return ctx.cache[key]
+    F = ctx.F
+    M = model(ctx, fl)
+    direct = {}
+    succ = {}
+    for q, b in F.bodies.items():
+        if F.flavour(b) != fl:
+            continue
+        cs = set()
+        for bi, t in calls_in(b):
+            res = t.get('res')
+            if t.get('local') and res in M.methods:
+                if M.muts(res):
+                    direct[q] = res
+            elif t.get('local') and res in F.bodies:
+                cs.add(res)
+            for gi in t.get('gargs', []):
+                for ty in F.ty_walk(gi):
+                    if ty['k'] == 'adt' and ty.get('local'):
+                        nq = '<%s as std::iter::Iterator>::next' % ty['p']
+                        if nq in F.bodies:
+                            cs.add(nq)
+                    if ty['k'] == 'closure' and ty['p'] in F.bodies:
+                        cs.add(ty['p'])
+        for bb in b['blocks']:
+            for s_ in bb['stmts']:
+                if s_['k'] == 'assign' and s_['rv']['k'] == 'aggr' and s_['rv']['ak'].startswith('closure:') and s_['rv']['ak'][8:] in F.bodies:
+                    cs.add(s_['rv']['ak'][8:])
+        succ[q] = cs
+    reach_m = set(direct)
+    via = dict(direct)
+    changed = True
+    while changed:
+        changed = False
+        for q, cs in succ.items():
+            if q not in reach_m:
+                hit = sorted(c for c in cs if c in reach_m)
+                if hit:
+                    reach_m.add(q)
+                    via[q] = hit[0]
+                    changed = True
+    ctx.cache[key] = (reach_m, via)
+    return reach_m, via
+
+
+def frame(ctx, flavours, scope, what):
+    """FRAME: no function of the given scope (regex over flavour-relative paths) reaches a list mutator: searches, orderings, SCC,
+    writers and containers compute on the graph the caller holds; they do not change its edges"""
+    F = ctx.F
+    out = []
+    rx = re.compile(scope)
+    for fl in flavours:
+        reach_m, via = mutator_reach(ctx, fl)
+        n = 0
+        for q, b in sorted(F.bodies.items()):
+            if F.flavour(b) != fl:
+                continue
+            rel = q.replace(fl + '::', '', 1) if not q.startswith('<') else q.replace(fl + '::', '')
+            if not rx.search(rel):
+                continue
+            n += 1
+            if b['kind'] == 'Closure':
+                continue      # judged with its owner (the closure edge is part of the reach relation)
+            bad = q in reach_m
+            chain = [q]
+            while bad and chain[-1] in via and len(chain) < 8 and via[chain[-1]] not in chain:
+                chain.append(via[chain[-1]])
+            out.append(Obl('FRAME', q, b['span'], '%s does not change any edge' % what, not bad, 'ok' if not bad else 'reaches a list mutator: ' + ' -> '.join(chain)))
+        if n == 0:
+            out.append(Obl('FRAME', fl, '-', '%s present' % what, False, 'anchor missing: no function matches %s' % scope))
+    return out
+
+
 def orient(ctx, flavours):
     """ORIENT: an iterator reading the OUT list (or both) yields Edge(self, peer, v); one reading the IN list yields Edge(peer, self, v) (directed)"""
     from . import rules_guard as rg
